@@ -31,6 +31,7 @@ type scenario struct {
 	Queue     int         `json:"queue"` // bytes
 	Producers [][]arrival `json:"producers"`
 	Reconf    []reconf    `json:"reconf"`
+	CloseAfterNs int64    `json:"closeAfterNs"` // idle time before Close (0: close while datagrams may still be queued)
 }
 
 func gen(r *harn.Rng, tier string) interface{} {
@@ -75,6 +76,7 @@ func gen(r *harn.Rng, tier string) interface{} {
 		}
 		sc.Producers = append(sc.Producers, as)
 	}
+	sc.CloseAfterNs = int64(r.Pick(0, 0, 1000, 1000000, 1000000000))
 	if r.Bool(0.3) {
 		for i, n := 0, r.Range(1, 3); i < n; i++ {
 			if r.Bool(0.5) {
@@ -179,7 +181,7 @@ func run(env *simrt.Env, sci interface{}) {
 		}))
 	}
 	env.Join(hs...)
-	env.Idle(time.Second)
+	env.Idle(time.Duration(sc.CloseAfterNs))
 	if err := tbf.Close(); err != nil {
 		env.Fail("C15/close-error", "Close: %v", err)
 		return
